@@ -166,6 +166,10 @@ def ew (op : String) (args : List Val) : Val :=
   | "abs", [.flt a] => vF (fOf a).abs
   | "floor", [.flt a] => vF (fOf a).floor
   | "ceil", [.flt a] => vF (fOf a).ceil
+  -- Int overloads (also reached by integer values in a Float-typed position, e.g. a case expression
+  -- with an integer branch and a float default: the engines widen the value, the number is the same)
+  | "floor", [.int a] => .int a
+  | "ceil", [.int a] => .int a
   | "equal", [a, b] => eqV a b
   | "not_equal", [a, b] => neV a b
   | "less_than", [a, b] => ltV a b
